@@ -5,6 +5,7 @@ mod codecx;
 mod enc;
 mod imagex;
 mod interpose;
+mod lockfine;
 mod lockx;
 mod model;
 mod names;
